@@ -543,3 +543,16 @@ CHECKS['C13'].update(text=CHECKS['C13']['text'] + ' B-single is reported at the 
                      'entered inside a static worker it calls.')
 CHECKS['C03'].update(text=CHECKS['C03']['text'] + ' The purging function must clear the mark and recurse into both subtrees on every path '
                      'except the NULL-pointer exit (no "already unmarked, skip the subtree" short-cut).')
+CHECKS['C18'].update(text=CHECKS['C18']['text'] + ' WID1: a left shift or multiplication of a non-constant 32-bit value is not converted to a '
+                     '64-bit type only afterwards (MD5 bit counter, hash accumulators) unless the operand provably fits.')
+
+
+# ---- wave-14 extensions -------------------------------------------------------------------------------------------------------
+CHECKS['C01'].update(text=CHECKS['C01']['text'] + ' T13: a remembered node (a node-pointer field of the table other than the root, assigned by a '
+                     'function that neither frees nodes nor moves keys) is reset or re-established after every event that frees a node or '
+                     'moves a key between nodes, unless the freed node is known to be a different one; static workers are summarised '
+                     '(can return stale / cannot) by an optimistic fixpoint and the verdict is given at the public operation. No instance '
+                     'while the record has no such field.')
+CHECKS['C16'].update(text=CHECKS['C16']['text'] + ' TB19: the query parser trims and splits text while it is still encoded (nothing URL-decoded is '
+                     'handed to a routine that interprets blanks). The loop-free interpreter behind the tabulated laws models conversions '
+                     'to char-sized types (sign of plain char) and the <ctype.h> classification table.')
